@@ -14,7 +14,7 @@
 extern int opus_verif_encoder_peek(const OpusEncoder *st, int field);
 
 #define MAXSEG 16
-typedef struct { int kind; double ms; } seg_t;   /* kind 0 silence, 1 active, 2 faint noise */
+typedef struct { int kind; double ms; int val; int done; } seg_t;   /* kind 0 silence, 1 active, 2 faint noise, 3 = OPUS_SET_DTX(val) at this point (no audio) */
 
 static double g_phase, g_t;
 static hx_rng g_sig;
@@ -66,8 +66,11 @@ static int run_line(char *line, int exno)
       if (sscanf(line, "X %d %d %d %d %d %d %d %d %d %d %lu", &fs, &ch, &app, &cx, &br, &vbr, &dtx, &durq, &maxb, &fec, &sseed) != 11) return -1;
    }
    for (tok = strtok(bar + 1, " \t\r\n"); tok && nseg < MAXSEG; tok = strtok(NULL, " \t\r\n")) {
-      segs[nseg].kind = tok[0] == 'a' ? 1 : tok[0] == 'n' ? 2 : 0;
-      segs[nseg].ms = atof(tok + 1); nseg++;
+      segs[nseg].kind = tok[0] == 'a' ? 1 : tok[0] == 'n' ? 2 : tok[0] == 'D' ? 3 : 0;
+      segs[nseg].val = 0; segs[nseg].done = 0;
+      if (segs[nseg].kind == 3) { segs[nseg].ms = 0; segs[nseg].val = atoi(tok + 1) ? 1 : 0; }
+      else segs[nseg].ms = atof(tok + 1);
+      nseg++;
    }
    frame = (int)((long)fs * durq / 2000);
    enc = opus_encoder_create(fs, ch, app, &err);
@@ -95,6 +98,7 @@ static int run_line(char *line, int exno)
       long pos = 0; hx_rng nr; nr.s = sseed ^ 0x5bd1e995;
       for (si = 0; si < nseg; si++) {
          int n = (int)(segs[si].ms * fs / 1000 + 0.5);
+         if (segs[si].kind == 3) continue;
          if (segs[si].kind == 1) { gen_active(in + pos * ch, n, ch, fs); }
          else if (segs[si].kind == 2) { for (k = 0; k < n * ch; k++) in[pos * ch + k] = (float)(1e-4 * (hx_unit(&nr) * 2 - 1)); }
          else memset(in + pos * ch, 0, sizeof(float) * (size_t)n * ch);
@@ -112,10 +116,17 @@ static int run_line(char *line, int exno)
          /* classify this packet's input: sil = every sample exactly zero; loud = lies wholly inside active segments */
          for (k = 0; k < frame * ch; k++) if (in[pos * ch + k] != 0) { sil = 0; break; }
          { long a = pos, b = pos + frame; long s0 = 0;
-           for (si = 0; si < nseg; si++) { long e0 = segend[si]; if (b > s0 && a < e0 && segs[si].kind != 1) loud = 0; if (b > s0 && a < e0 && segs[si].kind == 2) noise = 1;
+           for (si = 0; si < nseg; si++) { long e0 = segend[si]; if (segs[si].kind == 3) continue; if (b > s0 && a < e0 && segs[si].kind != 1) loud = 0; if (b > s0 && a < e0 && segs[si].kind == 2) noise = 1;
               if (segs[si].kind == 1) { long lo = a > s0 ? a : s0, hi = b < e0 ? b : e0; if (hi > lo) loudn += hi - lo; }
               s0 = e0; } }
          cls = sil ? 0 : loud ? 1 : noise ? 3 : 2;
+         /* control changes scheduled at or before the start of this packet (the segment boundary they sit on) */
+         for (si = 0; si < nseg; si++) if (segs[si].kind == 3 && !segs[si].done && segend[si] <= pos) {
+            int gd = -1;
+            segs[si].done = 1;
+            opus_encoder_ctl(enc, OPUS_SET_DTX(segs[si].val)); opus_encoder_ctl(enc, OPUS_GET_DTX(&gd));
+            js_open("dtx"); js_int("v", gd); js_int("i", pk); js_close();
+         }
          hx_arm(10);
          ret = opus_encode_float(enc, in + pos * ch, frame, pkt, maxb);
          hx_disarm();
